@@ -282,6 +282,37 @@ def check(ctx):
     ctx.ob("ORD-sort", srt, "dir validated", raises[0] if raises else srt.node, ok, "directions other than 1/-1 are rejected" if ok else
            "direction is not validated", nontrivial=False)
     ctx.ob("ORD-sort", srt, "no in-place list.sort", srt.node, not other, "receiver is not sorted in place" if not other else "in-place sort")
+    # the constructor converts EVERY item to an AttributeDict unless the caller vouches for them with as_is
+    init = repo.fn(f"{LOD}.__init__")
+    convs = [c for _, c in calls_in(init) if repo.dotted(init, c.func) == "builtins.map" and c.args and norm(c.args[0]) == "AttributeDict"]
+    convs += [n for n in body_nodes(init.node) if isinstance(n, (ast.ListComp, ast.GeneratorExp)) and isinstance(n.elt, ast.Call)
+              and norm(n.elt.func) == "AttributeDict"]
+    from ..forms import split_ifexp as _sx
+    okc = bool(convs)
+    cond_txt = []
+    for cv in convs:
+        # conditions under which the conversion is taken / skipped: statement facts plus enclosing conditional expressions
+        fx = set(facts_at(init, cv))
+        p_ = init.module.parent.get(cv)
+        node_ = cv
+        while p_ is not None and not isinstance(p_, ast.stmt):
+            if isinstance(p_, ast.IfExp):
+                fx |= {("T" if node_ is p_.body else "F", norm(p_.test))} if node_ is not p_.test else set()
+            node_, p_ = p_, init.module.parent.get(p_)
+        other = [(k, t) for k, t in fx if t != "as_is" and t != "not as_is" and not t.startswith("iter:")]
+        # ... and as_is is the caller's word, not something the constructor infers from a sample of the items
+        from ..dataflow import defs_reaching as _dr0
+        rebound = [d for d in _dr0(init, "as_is", cv) if d.kind != "param"]
+        if rebound:
+            other.append(("as_is rebound", norm(rebound[0].value) if rebound[0].value is not None else rebound[0].kind))
+        cond_txt += other
+        if other:
+            okc = False
+    ctx.ob("EFF-asis", init, f"items converted with AttributeDict unless as_is (other conditions: {cond_txt or 'none'})", convs[0] if convs else init.node, okc,
+           "every item becomes an AttributeDict unless the caller passes as_is=True" if okc else
+           f"the conversion to AttributeDict also depends on {cond_txt or 'nothing recognisable'}: lists for which that condition fails on some "
+           f"items (e.g. a mix of AttributeDicts and plain dicts) keep plain dicts, which do not support attribute access",
+           clause="always as a ListOfDicts whose items support attribute access")
     # ----------------------------------------------------------- ORD-unique
     uq = repo.fn(f"{LOD}.unique")
     ys = yields_of(uq)
@@ -305,3 +336,16 @@ def check(ctx):
     ctx.ob("ORD-unique", uq, "yield item only if its key is new; record the key", ys[0] if ys else uq.node, ok,
            "first item per key combination is kept" if ok else "unique does not test/record seen keys around its yield",
            clause="unique keeps the first item per key combination")
+    # the set of seen keys holds the key values themselves, not a many-to-one reduction of them
+    LOSSY = {"builtins.hash", "builtins.id", "builtins.str", "builtins.repr", "builtins.len", "builtins.sum", "builtins.bool"}
+    from ..dataflow import defs_reaching as _dr
+    for c in adds:
+        exprs = [c.args[0]] if c.args else []
+        if exprs and isinstance(exprs[0], ast.Name):
+            exprs = [d.value for d in _dr(uq, exprs[0].id, c) if d.value is not None] or exprs
+        lossy = [x for e in exprs for x in ast.walk(e) if isinstance(x, ast.Call) and repo.dotted(uq, x.func) in LOSSY]
+        ctx.ob("ORD-unique", uq, f"keys recorded as {[norm(e) for e in exprs]}", c, not lossy,
+               "the key tuples themselves are compared" if not lossy else
+               f"keys are reduced with {norm(lossy[0])} before they are recorded: distinct keys can collide (hash(-1) == hash(-2)), so "
+               f"items with different keys are dropped -- and aggregate(), which takes its groups from unique(), loses whole groups",
+               clause="unique keeps the first item per key combination")
